@@ -38,6 +38,12 @@ EnvStep == \/ /\ nport + sv.backlog <= MaxConnects /\ ~sv.loopReturned /\ Try(Ev
            \/ /\ ~sv.stoppedSeen /\ Try(Ev("StoppedReceived", 0, 0)) /\ UNCHANGED <<nport, reqs, accErrs>>
 Next == AccStep \/ AccAccepted \/ AccRevokedAfterAccept \/ ConnStep \/ EnvStep
 Spec == Init /\ [][Next]_vars /\ WF_vars(AccStep)
+\* ---- the counting abstraction that Apalache proves inductive for every Max (SlotsInd.tla): every step of this machine
+\* is a step of it (or leaves its variables unchanged)
+Abs == INSTANCE SlotsInd WITH avail <- sv.avail, accPc <- sv.accPc, accHolds <- sv.accHolds, pendingRet <- sv.pendingRet,
+                              backlog <- sv.backlog, nAccepted <- Cardinality(sv.accepted), nLive <- Cardinality(sv.live),
+                              revoked <- sv.revoked
+RefinesSlots == [][Abs!Next \/ UNCHANGED Abs!vars]_vars
 \* ---- properties ----
 LimitInv == Limit(sv)
 ConservationInv == Conservation(sv)
